@@ -46,8 +46,20 @@ def codes_key(F, path, subject):
         elif t[0] == "field" and t[1][0] == "variant" and t[1][1] == subject:
             if op == "==":
                 pspec = ("const", v)
-            else:
-                pspec = ("any", tuple(v))
+            elif not (pspec and pspec[0] == "const"):
+                pspec = ("any", tuple(sorted(set(v) | set(pspec[1] if pspec else ()))))
+        elif t[0] == "binop" and t[1] in ("Eq", "Ne") and len(t) == 4:
+            # `if k == 3 { .. } else { .. }` pins / excludes the parameter like a match arm does
+            for fld, cst in ((t[2], t[3]), (t[3], t[2])):
+                fld = cc.strip_casts(fld)
+                cv = cc.const_int(cst)
+                if isinstance(fld, tuple) and fld[0] == "field" and fld[1][0] == "variant" and fld[1][1] == subject and cv is not None:
+                    truth = (op == "==" and v == 1) or (op == "notin" and tuple(v) == (0,))
+                    if truth == (t[1] == "Eq"):
+                        pspec = ("const", cv)
+                    elif not (pspec and pspec[0] == "const"):
+                        pspec = ("any", tuple(sorted(set(pspec[1] if pspec else ()) | {cv})))
+                    break
     if default or var is None:
         return ("default",)
     return ("arm", var, pspec)
@@ -268,17 +280,102 @@ def resolve_fn_value(F, t, kind):
         stream_i, value_i = (1, None) if kind == "read" else (1, 2) if kind == "write" else (None, 1)
     else:
         return cpath, {"kind": "unknown", "why": "initialiser of %s is %s" % (cpath, mir.fmt(r))}
+    return cpath, leaf_of_callable(F, clo, r[0] == "agg", kind, cpath)
+
+
+def leaf_of_callable(F, clo, is_closure, kind, cpath):
+    """what the function value (closure body / named function) does with its stream and value arguments"""
+    if is_closure:
+        stream_i, value_i = (2, None) if kind == "read" else (2, 3) if kind == "write" else (None, 2)
+    else:
+        stream_i, value_i = (1, None) if kind == "read" else (1, 2) if kind == "write" else (None, 1)
     cps = [p for p in mir.walk(clo) if p.end[0] == "return"]
     if len(cps) != 1:
-        return cpath, {"kind": "unknown", "why": "closure of %s has %d returning paths" % (cpath, len(cps))}
+        return {"kind": "unknown", "why": "closure of %s has %d returning paths" % (cpath, len(cps))}
     p = cps[0]
     leaf = leaf_from_events(p, kind, stream_i, value_i)
     if leaf["kind"] == "unknown" and kind == "len":
         # not a call of a known length function: leave it to the whole-domain comparison in check_arm
-        leaf = dict(leaf, body=clo, is_closure=(r[0] == "agg"), facts=F)
+        leaf = dict(leaf, body=clo, is_closure=is_closure, facts=F)
     if leaf["kind"] == "code" and leaf.get("ret") is not None and not ret_forwards(p, leaf["ret"]):
         leaf = dict(leaf, args_ok=False, why=["closure result is not the operation's result"])
-    return cpath, leaf
+    return leaf
+
+
+def semantic_func_table(F, body):
+    """the selection function of a function-pointer dispatcher, interpreted on every variant and every parameter value (whatever
+    the shape of the selection: match arms, range patterns, lookup tables): [(variant, lo, hi, callable | None)] with callable =
+    ("closure" | "fn", path), None for a rejected code; or None when the interpreter cannot follow the code"""
+    import ivl
+    from ivl import AI, Agg, Opaque
+    import rules_c16
+    vs = rules_c16.variants(F)
+    out = []
+    try:
+        for idx, v in sorted(vs.items()):
+            def run(it, v=v, idx=idx):
+                val = Agg("adt", rules_c16.CODES_ADT, v["name"], idx, [it.input(f["ty"] if f["ty"] in ivl.TY else "usize") for f in v["fields"]])
+                return it.call_body(body, [val], {}, 0)
+            for c in ivl.partition(F, run, 0, (1 << 64) - 1 if v["fields"] else 0, max_cells=600):
+                r = c.ret
+                if c.status != "ok" or not isinstance(r, Agg):
+                    return None
+                if r.variant == "Err":
+                    out.append((v["name"], c.y0, c.y1, None))
+                    continue
+                if r.variant != "Ok" or not isinstance(r.fields[0], Agg) or len(r.fields[0].fields) != 1:
+                    return None
+                fv = r.fields[0].fields[0]
+                if isinstance(fv, Agg) and fv.kind == "closure" and not fv.fields:
+                    out.append((v["name"], c.y0, c.y1, ("closure", fv.name)))
+                elif isinstance(fv, Opaque) and isinstance(fv.what, tuple) and fv.what[0] in ("closure", "fn"):
+                    out.append((v["name"], c.y0, c.y1, (fv.what[0], fv.what[1])))
+                else:
+                    return None
+    except (ivl.Unsupported, ivl.Undecided, ivl.Panic, KeyError, AttributeError, IndexError):
+        return None
+    return out
+
+
+def table_func_new_semantic(F, chk, body, kind, dname, rule):
+    sem = semantic_func_table(F, body)
+    if sem is None:
+        return None
+    table = {}
+    rejects = 0
+    leaves = {}
+    const_leaves = {}
+    for var, lo, hi, fn in sem:
+        fam, field = cc.VARIANT[var]
+        if fn is None:
+            rejects += 1
+            continue
+        if field and hi - lo > 64:
+            chk.bad(rule, "%s:%s[%d..]" % (dname, var, lo), "dispatcher %s maps the whole parameter range %d..=%d of %s to one function (%s)" % (dname, lo, hi, var, fn[1]))
+            continue
+        if fn not in leaves:
+            bl = F.by_path.get(fn[1], [])
+            leaves[fn] = leaf_of_callable(F, bl[0], fn[0] == "closure", kind, fn[1]) if len(bl) == 1 and bl[0].get("blocks") else \
+                {"kind": "unknown", "why": "body of %s not available" % fn[1]}
+        leaf = leaves[fn]
+        cpath = fn[1].rsplit("::{closure", 1)[0] if fn[0] == "closure" else fn[1]
+        cname = cpath.split("::")[-1]
+        for pv in range(lo, hi + 1):
+            key = ("arm", var, ("const", pv) if field else None)
+            lc = check_arm(chk, rule, dname, key, dict(leaf, call="%s -> %s" % (cname, leaf.get("call"))), kind, None)
+            table[key] = {lc}
+        is_const = any(b["kind"] == "AssocConst" for b in F.by_path.get(cpath, []))
+        if leaf["kind"] == "code" and is_const and cpath not in const_leaves:
+            ncl = cc.const_name_class(cname)
+            lp = leaf["param"]
+            lcl = cc.canon(leaf["fam"], lp, kind == "len") if (lp is None or isinstance(lp, int)) else None
+            const_leaves[cpath] = lcl
+            chk.expect(rule + ".consts", "%s::%s" % (dname, cname),
+                       ncl is not None and cc.canon(*ncl, for_len=(kind == "len")) == lcl and leaf["args_ok"],
+                       "associated constant %s of %s performs %s via %s" % (cname, dname, lcl, leaf.get("call")),
+                       detail={"const": cpath, "performs": lcl, "call": leaf.get("call")})
+    chk.expect(rule, dname + ":has-default", rejects >= 1, "dispatcher %s has no rejecting fallback" % dname)
+    return table
 
 
 def table_func_new(F, chk, body, kind, dname, rule):
@@ -414,7 +511,10 @@ def run(chk, F, tier):
         rule = "D1.%s.new" % dn
         chk.rule(rule, floor=59, doc="arms of %s::new -> associated fn constant -> closure" % dn)
         chk.rule(rule + ".consts", floor=51, doc="associated fn constants of %s perform the code their name says" % dn)
-        tables[(dn, kind)] = table_func_new(F, chk, b, kind, dn, rule)
+        # decided semantically (interpretation of the selection on every variant and parameter); when the interpreter cannot
+        # follow the code, by the structural extraction of the match arms
+        tab = table_func_new_semantic(F, chk, b, kind, dn, rule)
+        tables[(dn, kind)] = tab if tab is not None else table_func_new(F, chk, b, kind, dn, rule)
 
     # ---- D2 sibling agreement
     chk.rule("D2.keysets", floor=6, doc="dispatchers of one kind support the same key set")
